@@ -250,6 +250,20 @@ fn norm_final<const L: usize>(b: usize) {
     cmp2!(|x: &mut [i64; L], c: &mut [i64; L]| znx_normalize_final_step_sub_avx(b, lsh, x, &a, c), |x: &mut [i64; L], c: &mut [i64; L]| znx_normalize_final_step_sub_ref(b, lsh, x, &a, c), "C10:final_step_sub");
 }
 
+// the subtracting middle step alone, one SIMD vector (no scalar tail), shift constant per harness: small enough to be decided quickly in both directions (seed C10-5: the
+// symbolic-shift family above exhausts its time limit on a tree where this kernel differs)
+fn norm_middle_sub<const L: usize>(b: usize, lsh: usize) {
+    let a: [i64; L] = arr::<L>(H62);
+    let c0: [i64; L] = arr::<L>(H61);
+    let x0: [i64; L] = arr::<L>(H61);
+    let (mut x1, mut c1) = (x0, c0);
+    let (mut x2, mut c2) = (x0, c0);
+    unsafe { znx_normalize_middle_step_sub_avx(b, lsh, &mut x1, &a, &mut c1) };
+    znx_normalize_middle_step_sub_ref(b, lsh, &mut x2, &a, &mut c2);
+    assert!(eq(&x1, &x2) && eq(&c1, &c2), "C10:middle_step_sub (constant shift)");
+}
+avx_harness!(c10_norm_middle_sub__b52_lsh20_len4, norm_middle_sub::<4>(52, 20));
+avx_harness!(c10_norm_middle_sub__b17_lsh5_len4, norm_middle_sub::<4>(17, 5));
 avx_harness!(c10_norm_first__b17_len5, norm_first::<5>(17));
 avx_harness!(c10_norm_middle__b17_len5, norm_middle::<5>(17));
 avx_harness!(c10_norm_final__b17_len5, norm_final::<5>(17));
